@@ -1,4 +1,99 @@
-From Coq Require Import ZArith List Bool.
-From CTM Require Import Model.Election.
-Theorem c06_placeholder : True. Proof. exact I. Qed.
-Print Assumptions c06_placeholder.
+(* C06 — a cell's mapping depends only on its own expression vector.
+   Property theorems only: each is closed by `exact <lemma>`. *)
+From Coq Require Import ZArith List Bool Permutation Sorted.
+From CTM Require Import Base.Sx Base.SortX Model.Tree Model.Election Model.PerCell Model.Vote
+     Proofs.ElectionP Proofs.PerCellP Proofs.SubsetP.
+Import ListNotations.
+Open Scope Z_scope.
+
+(* With bootstrap factor 1 the marker subset of every iteration, sorted as tally_votes
+   sorts it, is the whole marker list — whatever the random generator returned: *)
+Theorem c06_factor_one_subset_is_everything :
+  forall (n : nat) (S S' : list nat),
+    subset_ok (1, 1) n S = true -> Permutation S' S -> Sorted lt S' -> S' = seq 0 n.
+Proof. exact full_subset. Qed.
+Print Assumptions c06_factor_one_subset_is_everything.
+
+(* ... so the leaf nearest to a cell is the same for any two draws *)
+Theorem c06_nearest_independent_of_draw :
+  forall q refs (n : nat) (S1 S2 S1' S2' : list nat),
+    subset_ok (1, 1) n S1 = true -> subset_ok (1, 1) n S2 = true ->
+    Permutation S1' S1 -> Sorted lt S1' -> Permutation S2' S2 -> Sorted lt S2' ->
+    nearest q refs S1' = nearest q refs S2'.
+Proof. exact nearest_full. Qed.
+Print Assumptions c06_nearest_independent_of_draw.
+
+(* Whenever the decision taken for a cell at a parent (with >= 2 children) is a function
+   dc of that cell alone — neither of the generator state nor of the other cells handed
+   to the same call — the level-by-level routing of run_type_assignment (shared
+   previously_assigned tables, write-back by row index, visits in sorted node order)
+   is, row by row, the per-cell recursion map_one down the tree: *)
+Theorem c06_per_cell :
+  forall (cell rng : Type)
+         (decide : rng -> option (nat * node) -> list node -> list cell -> list rec * rng)
+         (dc : option (nat * node) -> list node -> cell -> rec),
+    (forall g p kids cs, (2 <= length kids)%nat -> fst (decide g p kids cs) = map (dc p kids) cs) ->
+    (forall p kids c, (2 <= length kids)%nat -> In (asg (dc p kids c)) kids) ->
+    forall t cells g rows g',
+      tree_ok t ->
+      run_type_assignment cell rng decide t cells g = Ok (rows, g') ->
+      rows = map (map_one cell dc t) cells.
+Proof. exact per_cell. Qed.
+Print Assumptions c06_per_cell.
+
+(* Hence a cell gets the same records in any two runs, at any positions, in any company
+   and from any generator states: permuting the query, mapping a subset or a superset,
+   duplicating cells are all instances (i, j arbitrary; cells1, cells2 arbitrary). *)
+Theorem c06_same_cell_same_row :
+  forall (cell rng : Type)
+         (decide : rng -> option (nat * node) -> list node -> list cell -> list rec * rng)
+         (dc : option (nat * node) -> list node -> cell -> rec),
+    (forall g p kids cs, (2 <= length kids)%nat -> fst (decide g p kids cs) = map (dc p kids) cs) ->
+    (forall p kids c, (2 <= length kids)%nat -> In (asg (dc p kids c)) kids) ->
+    forall t cells1 g1 rows1 g1' cells2 g2 rows2 g2' i j c,
+      tree_ok t ->
+      run_type_assignment cell rng decide t cells1 g1 = Ok (rows1, g1') ->
+      run_type_assignment cell rng decide t cells2 g2 = Ok (rows2, g2') ->
+      nth_error cells1 i = Some c -> nth_error cells2 j = Some c ->
+      nth_error rows1 i = nth_error rows2 j.
+Proof. exact same_cell_same_row. Qed.
+Print Assumptions c06_same_cell_same_row.
+
+(* ... and mapping the query in chunks — any split into consecutive pieces, each piece
+   run separately from its own generator state, as the workers do — gives the rows of
+   the whole run, in order. *)
+Theorem c06_chunking :
+  forall (cell rng : Type)
+         (decide : rng -> option (nat * node) -> list node -> list cell -> list rec * rng)
+         (dc : option (nat * node) -> list node -> cell -> rec),
+    (forall g p kids cs, (2 <= length kids)%nat -> fst (decide g p kids cs) = map (dc p kids) cs) ->
+    (forall p kids c, (2 <= length kids)%nat -> In (asg (dc p kids c)) kids) ->
+    forall t (chunks : list (list cell)) (gs : list rng) (outs : list (list (list rec) * rng)) g rows g',
+      tree_ok t ->
+      Forall2 (fun cg out => run_type_assignment cell rng decide t (fst cg) (snd cg) = Ok out)
+              (combine chunks gs) outs ->
+      length gs = length chunks ->
+      run_type_assignment cell rng decide t (concat chunks) g = Ok (rows, g') ->
+      rows = concat (map fst outs).
+Proof. exact chunks_concat. Qed.
+Print Assumptions c06_chunking.
+
+(* non-vacuity: a per-cell decision procedure meeting both hypotheses, on a 3-level
+   taxonomy with a single-child chain; the whole run and the per-cell recursion agree,
+   also for a permuted query with a duplicated cell *)
+Definition ex_tree : tree :=
+  [ [(1, [10; 11])]; [(10, [100]); (11, [110; 111])]; [(100, []); (110, []); (111, [])] ].
+Definition ex_dc (p : option (nat * node)) (kids : list node) (c : Z) : rec :=
+  {| asg := if Z.even c then hd 0 kids else last kids 0; prob := (3, 4); corr := Some (1, 2);
+     runners := []; agg := one |}.
+Definition ex_decide (g : nat) (p : option (nat * node)) (kids : list node) (cs : list Z) : list rec * nat :=
+  (map (ex_dc p kids) cs, S g).
+Example c06_hypotheses_satisfiable :
+  (forall g p kids cs, (2 <= length kids)%nat -> fst (ex_decide g p kids cs) = map (ex_dc p kids) cs) /\
+  (forall p kids c, (2 <= length kids)%nat -> In (asg (ex_dc p kids c)) kids).
+Proof. exact ex_dc_ok. Qed.
+Example c06_example :
+  run_type_assignment Z nat ex_decide ex_tree [5; 6; 7] 0%nat = Ok (map (map_one Z ex_dc ex_tree) [5; 6; 7], 2%nat) /\
+  run_type_assignment Z nat ex_decide ex_tree [7; 5; 7; 6] 9%nat = Ok (map (map_one Z ex_dc ex_tree) [7; 5; 7; 6], 11%nat) /\
+  map (map asg) (map (map_one Z ex_dc ex_tree) [5; 6]) = [[1; 11; 111]; [1; 10; 100]].
+Proof. vm_compute. repeat split; reflexivity. Qed.
